@@ -1,4 +1,4 @@
-import Proofs.Chain
+import Proofs.Process
 import Pegnet.Generated.Facts
 /-
   C10 — Fault transparency.
@@ -52,9 +52,32 @@ theorem swallow_sites_are_the_known_ones :
        "node/sync.go:recordPegnetRequests:Convert"] := by
   decide
 
+/-- **`faults_transparent` for propagated faults, every height, every chain, every finite fault
+    plan.** A run of the daemon in which any number of iterations are cut short by a failed
+    upstream request or SQL statement (the error is propagated: the block transaction is rolled
+    back, the in-memory cache may already have been advanced) ends in exactly the database and
+    sync height of the fault-free run. The retry finds the cache at the height it asks for and is
+    handed the same averages (`getAverages_idem`). What this does NOT cover are the call sites
+    that swallow an error (`swallow_sites_are_the_known_ones`): there the iteration is not cut
+    short, it commits with part of its effects missing — the known findings of this property. -/
+theorem propagated_faults_transparent (P : Params) (ch : Nat → Block) (n : Node) (es : List Ev)
+    (hv : ValidRun P ch n es) :
+    (runEvs P ch n es).db = (runEvs P ch n (es.filter (fun e => !e.isAborted))).db ∧
+    (runEvs P ch n es).mem = (runEvs P ch n (es.filter (fun e => !e.isAborted))).mem :=
+  aborted_erasable_all P ch es n n ⟨rfl, rfl, Or.inl rfl⟩ hv
+
+/-- asking the averaging cache twice for the same height changes nothing the second time -/
+theorem averages_idempotent (P : Params) (db : DB) (c : AvgCache) (h : Nat) :
+    getAverages P db (getAverages P db c h).1 h = getAverages P db c h := getAverages_idem P db c h
+
+/-- non-vacuity: a fault plan with two failed iterations of the same block -/
+example : [Ev.aborted false, .aborted true, .attempt].filter (fun e => !e.isAborted) = [.attempt] := rfl
+
 end Pegnet.C10
 
 #print axioms Pegnet.C10.propagated_failure_is_transparent
 #print axioms Pegnet.C10.retry_same_outcome
 #print axioms Pegnet.C10.swallow_keeps_partial_effects
 #print axioms Pegnet.C10.swallow_sites_are_the_known_ones
+#print axioms Pegnet.C10.propagated_faults_transparent
+#print axioms Pegnet.C10.averages_idempotent
